@@ -500,7 +500,7 @@ func TestC09(t *testing.T) {
 		netLanes(r, r.N(4, 64))
 	}
 	r.Rule("grammar-based hostile client scripts (1-8 steps) against a server that also carries a canary session: HTTP requests with mutated methods, transport/EIO/sid/j/b64 query values (absent, repeated, garbage, huge, another session's id), content types, odd Origin/Accept-Encoding headers, bodies that are random, empty, bit-flipped/truncated/doubled valid payloads, inflated or malformed v3 length prefixes, invalid UTF-8/base64, delimiter floods, chunked; WebSocket/WebTransport frames of every packet type in every phase; upgrade candidates opened with another EIO value followed by heartbeats; hostile WebSocket handshakes; clients that stop reading while the application keeps sending (the server's writer blocked on a full connection) followed by whatever comes next in the script (candidates that re-upgrade the session, frames, closes); 13 hostile first messages and a stream-less session on a real WebTransport server (QUIC on loopback); oracle: the process survives (each case journalled before it runs), handler panics recovered by net/http are counted, no step of <=64 KiB costs more than 1.5 s of CPU time, the canary still round-trips, and 90 s after everything closed no server goroutine is left in the bubble; distinct = script signature")
-	r.Assume("not coverage-guided: breadth comes from the grammar and the seed; 'out of proportion' is operationalised as > 1.5 s of process CPU time for an input of at most 64 KiB")
+	r.Assume("not coverage-guided: breadth comes from the grammar and the seed; 'out of proportion' is operationalised as > 1.5 s of process CPU time for an input of at most 64 KiB, read again at the same step in two replays of the script (a single reading is a measurement, not a fact)")
 	// a script that has not finished after a minute of real time (normal: milliseconds) is examined
 	// for a goroutine spinning in library code (rep.Guard)
 	r.Guard(60 * time.Second)
@@ -515,6 +515,26 @@ func TestC09(t *testing.T) {
 		r.Begin(fmt.Sprint(i), c)
 		key, msg, stats := runC09(c, rng, r)
 		r.End(fmt.Sprint(i))
+		if strings.HasPrefix(key, "c09-work-out-of-proportion") && !strings.Contains(key, "inflated-message") {
+			// CPU time is a measurement, not a logical fact: on a loaded machine (and with the CPU
+			// accounting of a virtual machine) a single reading can be off by orders of magnitude.
+			// Work that is out of proportion to the input is a property of the input: the same
+			// script, replayed twice from its own PRNG stream, must show it again at the same step.
+			step := strings.SplitN(msg, " (", 2)[0]
+			confirmed := 0
+			for k := 0; k < 2; k++ {
+				k2, m2, _ := runC09(c, r.CaseRand(9, i), r)
+				if k2 == key && strings.HasPrefix(m2, step+" (") {
+					confirmed++
+				}
+			}
+			if confirmed < 2 {
+				r.Obs("cpu_time_readings_not_confirmed_by_replay", 1)
+				key, msg = "", ""
+			} else {
+				msg += " (confirmed by two replays of the script)"
+			}
+		}
 		var sig []string
 		for _, st := range c.Steps {
 			sig = append(sig, st.Kind[:1]+":"+st.Method+":"+st.Desc)
@@ -567,9 +587,13 @@ func runC09Spin(c c09Case, rng *rand.Rand, r *rep.Report) (key, msg string, stat
 			return
 		}
 		body, _ := base64.StdEncoding.DecodeString(c.Steps[0].BodyB64)
-		t0 := realNow()
-		w.Start(rig.ReqSpec{Method: "POST", Target: "/engine.io/?EIO=3&transport=polling&sid=" + v.Sid, Header: map[string][]string{"Content-Type": {"application/octet-stream"}}, Body: body}).WaitFor(5 * time.Second)
-		d := realNow() - t0
+		// the smallest of three readings: a single CPU-time reading can be inflated by the machine
+		d := time.Duration(1 << 62)
+		for k := 0; k < 3; k++ {
+			t0 := realNow()
+			w.Start(rig.ReqSpec{Method: "POST", Target: "/engine.io/?EIO=3&transport=polling&sid=" + v.Sid, Header: map[string][]string{"Content-Type": {"application/octet-stream"}}, Body: body}).WaitFor(5 * time.Second)
+			d = min(d, realNow()-t0)
+		}
 		r.Obs("spin_lane_real_ms", int64(d/time.Millisecond))
 		if d > 500*time.Millisecond {
 			key, msg = "v3-binary-payload-inflated-length-spin", fmt.Sprintf("a %d-byte revision-3 binary payload declaring a 9999999-unit string packet cost %v of CPU time", len(body), d)
